@@ -98,3 +98,145 @@ package table
 //@   loop 0 invariant -1 <= rangeindex && rangeindex < len(ops) && forall j int :: 0 <= j && j <= rangeindex ==> okOp(ops[j])
 // oneof wrappers produced by the decoder are never typed-nil and always carry their message
 //@ pure func opNonNilPayload(o *regattapb.RequestOp) bool = (typeIs(o.Request, *regattapb.RequestOp_RequestPut) ==> asType(o.Request, *regattapb.RequestOp_RequestPut) != nil && asType(o.Request, *regattapb.RequestOp_RequestPut).RequestPut != nil) && (typeIs(o.Request, *regattapb.RequestOp_RequestDeleteRange) ==> asType(o.Request, *regattapb.RequestOp_RequestDeleteRange) != nil && asType(o.Request, *regattapb.RequestOp_RequestDeleteRange).RequestDeleteRange != nil) && (typeIs(o.Request, *regattapb.RequestOp_RequestRange) ==> asType(o.Request, *regattapb.RequestOp_RequestRange) != nil && asType(o.Request, *regattapb.RequestOp_RequestRange).RequestRange != nil)
+
+// ---------------------------------------------------------------- metadata store handle (C14, C15)
+
+//@ import kv "github.com/jamf/regatta/storage/kv"
+//@ import json "encoding/json"
+//@ import time "time"
+
+// The metadata store as the manager sees it: a linearizable compare-and-set register map (property
+// C13, proved on storage/kv: LFSM.Update rejects a set/delete of an existing key whose version
+// differs; RaftStore maps the rejection to ErrVersionMismatch). Other nodes write between any two
+// calls, so nothing is assumed about the store's content across calls. What a call observed or did
+// at its linearization point is recorded in ghost fields of the handle:
+//   rKey/rHas/rPair          the last Get: key, whether it existed, the pair it returned
+//   nw                        number of successful writes (Set/Delete) through this handle
+//   wKey/wVal/wVer/wDel       the last successful write
+//   wPrevHas/wPrev            the record that write replaced (absent, or a record whose version is wVer)
+//@ ghostfield any.rKey string
+//@ ghostfield any.rHas Bool
+//@ ghostfield any.rPair kv.Pair
+//@ ghostfield any.nw Int
+//@ ghostfield any.wKey string
+//@ ghostfield any.wVal string
+//@ ghostfield any.wVer uint64
+//@ ghostfield any.wDel Bool
+//@ ghostfield any.wPrevHas Bool
+//@ ghostfield any.wPrev kv.Pair
+
+//@ iface table.store.Get
+//@   assumed
+//@   params s, key
+//@   results p, err
+//@   ensures s.rKey == key && s.rHas == (err == nil)
+//@   ensures err == nil ==> s.rPair == p && p.Ver > 0 && p.Key == key
+//@   ensures err != nil ==> p == kv.Pair{}
+//@   modifies s.rKey, s.rHas, s.rPair
+
+//@ iface table.store.Exists
+//@   assumed
+//@   params s, key
+//@   results ok, err
+//@   modifies nothing
+
+// compare-and-set: success means the key was absent or carried exactly the supplied version
+//@ iface table.store.Set
+//@   assumed
+//@   params s, key, value, ver
+//@   results p, err
+//@   ensures err == nil ==> s.nw == old(s.nw) + 1 && s.wKey == key && s.wVal == value && s.wVer == ver && !s.wDel && (s.wPrevHas ==> s.wPrev.Ver == ver && s.wPrev.Ver > 0 && s.wPrev.Key == key)
+//@   ensures err == nil ==> p.Key == key && p.Value == value && p.Ver > 0
+//@   ensures err != nil ==> s.nw == old(s.nw) && s.wKey == old(s.wKey) && s.wVal == old(s.wVal) && s.wVer == old(s.wVer) && s.wDel == old(s.wDel) && s.wPrevHas == old(s.wPrevHas) && s.wPrev == old(s.wPrev)
+//@   modifies s.nw, s.wKey, s.wVal, s.wVer, s.wDel, s.wPrevHas, s.wPrev
+
+//@ iface table.store.Delete
+//@   assumed
+//@   params s, key, ver
+//@   results err
+//@   ensures err == nil ==> s.nw == old(s.nw) + 1 && s.wKey == key && s.wVer == ver && s.wDel && (s.wPrevHas ==> s.wPrev.Ver == ver && s.wPrev.Ver > 0 && s.wPrev.Key == key)
+//@   ensures err != nil ==> s.nw == old(s.nw) && s.wKey == old(s.wKey) && s.wVal == old(s.wVal) && s.wVer == old(s.wVer) && s.wDel == old(s.wDel) && s.wPrevHas == old(s.wPrevHas) && s.wPrev == old(s.wPrev)
+//@   modifies s.nw, s.wKey, s.wVal, s.wVer, s.wDel, s.wPrevHas, s.wPrev
+
+//@ iface table.store.GetAll
+//@   assumed
+//@   params s, pattern
+//@   modifies nothing
+
+// "/tables/" + name (fmt.Sprintf is outside the engine's subset: assumed)
+//@ func storedTableName
+//@   assumed
+//@   ensures result == "/tables/" + name
+//@   modifies nothing
+
+// ---------------------------------------------------------------- replication lease (C15)
+
+//@ uninterp func leaseOf(b Bytes) Lease
+//@ initfact kv.ErrNotExist : kv.ErrNotExist != nil
+//@ func json.Unmarshal<*table.Lease>
+//@   assumed
+//@   params data, v
+//@   results err
+//@   ensures err == nil ==> *asType(v, *table.Lease) == leaseOf(bytesOf(data))
+//@   modifies fields(asType(v, *table.Lease))
+//@ func json.Marshal<table.Lease>
+//@   assumed
+//@   params v
+//@   results data, err
+//@   ensures err == nil ==> fresh(data) && leaseOf(bytesOf(data)) == asType(v, table.Lease)
+//@   modifies nothing
+
+//@ pure func leaseKey(name string) string = "/tables/" + name + "/lease"
+// the lease recorded in a pair
+//@ pure func leaseIn(p kv.Pair) Lease = leaseOf(bytesOf(p.Value))
+
+// LeaseTable reads the lease record once and writes at most once; a successful call is exactly one
+// compare-and-set of the lease key, with the version it read (0 when it read no record), of a lease
+// in its own name that ends `lease` after a clock reading; and it wrote only because the record it
+// read was absent, its own, or expired at a clock reading.
+//@ func (*Manager).LeaseTable
+//@   params m, name, lease
+//@   results err
+//@   requires m != nil && m.store != nil
+//@   ensures [C15.onewrite] m.store.nw <= old(m.store.nw) + 1
+//@   ensures [C15.fail.nowrite] err != nil ==> m.store.nw == old(m.store.nw)
+//@   ensures [C15.cas] err == nil ==> m.store.nw == old(m.store.nw) + 1 && m.store.rKey == leaseKey(name) && m.store.wKey == leaseKey(name) && !m.store.wDel && m.store.wVer == (m.store.rHas ? m.store.rPair.Ver : 0)
+//@   ensures [C15.own] err == nil ==> leaseOf(bytesOf(m.store.wVal)).ID == m.cfg.NodeID && tns(leaseOf(bytesOf(m.store.wVal)).Until) == world.clock + lease
+//@   ensures [C15.decide] err == nil ==> !m.store.rHas || leaseIn(m.store.rPair).ID == m.cfg.NodeID || tns(leaseIn(m.store.rPair).Until) < world.clock
+//@   ensures [C15.clock] world.clock >= old(world.clock)
+//@   modifies m.store.rKey, m.store.rHas, m.store.rPair, m.store.nw, m.store.wKey, m.store.wVal, m.store.wVer, m.store.wDel, m.store.wPrevHas, m.store.wPrev, world.clock
+
+// ReturnTable deletes only with the version of a record it read and found to be its own.
+//@ func (*Manager).ReturnTable
+//@   params m, name
+//@   results returned, err
+//@   requires m != nil && m.store != nil
+//@   ensures [C15.return.onewrite] m.store.nw <= old(m.store.nw) + 1
+//@   ensures [C15.return.nowrite] !returned ==> m.store.nw == old(m.store.nw)
+//@   ensures [C15.return.cas] returned ==> err == nil && m.store.nw == old(m.store.nw) + 1 && m.store.wDel && m.store.rKey == leaseKey(name) && m.store.wKey == leaseKey(name) && m.store.rHas && m.store.wVer == m.store.rPair.Ver
+//@   ensures [C15.return.own] returned ==> leaseIn(m.store.rPair).ID == m.cfg.NodeID
+//@   modifies m.store.rKey, m.store.rHas, m.store.rPair, m.store.nw, m.store.wKey, m.store.wVal, m.store.wVer, m.store.wDel, m.store.wPrevHas, m.store.wPrev
+
+// From the per-call contracts to mutual exclusion. Versions identify records (a successful set gives
+// the key a version larger than every earlier one: C13.version.fresh), so a compare-and-set that
+// succeeds against an existing record replaced exactly the record that was read; time only moves
+// forward between the read and the write. Hence at the linearization point of a successful
+// LeaseTable by node `me` the record it replaced was absent, its own, or expired: no other node's
+// unexpired lease is ever overwritten, and since the lease is one record per table, at most one
+// node holds an unexpired lease at any instant.
+//@ lemma leaseExclusive(rHas Bool, rPair kv.Pair, wPrevHas Bool, wPrev kv.Pair, wVer uint64, me uint64, tDecide Int, tWrite Int)
+//@   requires tDecide <= tWrite
+//@   requires rHas ==> rPair.Ver > 0
+//@   requires rHas && wPrevHas && rPair.Ver == wPrev.Ver ==> rPair == wPrev
+//@   requires wVer == (rHas ? rPair.Ver : 0)
+//@   requires wPrevHas ==> wPrev.Ver == wVer && wPrev.Ver > 0
+//@   requires !rHas || leaseIn(rPair).ID == me || tns(leaseIn(rPair).Until) < tDecide
+//@   ensures [C15.mutex] !wPrevHas || leaseIn(wPrev).ID == me || tns(leaseIn(wPrev).Until) < tWrite
+
+// a successful return removed the caller's own lease (or nothing, if it was already gone)
+//@ lemma returnOwn(rPair kv.Pair, wPrevHas Bool, wPrev kv.Pair, wVer uint64, me uint64)
+//@   requires rPair.Ver > 0 && wVer == rPair.Ver
+//@   requires wPrevHas && rPair.Ver == wPrev.Ver ==> rPair == wPrev
+//@   requires wPrevHas ==> wPrev.Ver == wVer
+//@   requires leaseIn(rPair).ID == me
+//@   ensures [C15.return.mutex] !wPrevHas || leaseIn(wPrev).ID == me
